@@ -31,6 +31,7 @@ func CheckPool(e *Env, prop string) (int, error) {
 	if e.Tier == "thorough" {
 		stallRuns = 32000
 	}
+	bin386, state386 := e.build386()
 	a := newAgg()
 	budget := budgetSeconds(e.Tier, 30, 840)
 	perJob, perRound := 500, 16*500
@@ -50,7 +51,14 @@ func CheckPool(e *Env, prop string) (int, error) {
 			if stallBin != "" {
 				jobs = append(jobs, SplitRuns(stallBin, simStall.Name, "stall", prop, 0, stallRuns, stallRuns/16)...)
 			}
+			if bin386 != "" {
+				// the library on a 32-bit platform
+				jobs = append(jobs, SplitRuns(bin386, simrun386.Name, "pool", prop, first386, perJob, perJob/4)...)
+			}
 			return jobs
+		}
+		if bin386 != "" && round%8 == 4 {
+			b, v = bin386, simrun386.Name
 		}
 		return SplitRuns(b, v, "pool", prop, from, perRound, perJob)
 	})
@@ -64,6 +72,9 @@ func CheckPool(e *Env, prop string) (int, error) {
 		if r.Variant == "purego" {
 			return binPure, "purego"
 		}
+		if r.Variant == simrun386.Name {
+			return bin386, simrun386.Name
+		}
 		return bin, "asm"
 	}, budgetSeconds(e.Tier, 60, 300))
 	if err != nil {
@@ -72,6 +83,7 @@ func CheckPool(e *Env, prop string) (int, error) {
 	rule := "case = one seeded call history (<= 80 steps) over a pool of 6 points (some zero-value), 6 scalars, <= 16 key objects and tracked caller buffers; receivers and arguments drawn with replacement. distinct_nontrivial = number of distinct history digests (SHA-256 over every step's inputs and outputs) among histories in which at least one injected fault fired (failing call, uninitialised operand, caller mutation, slot reset, re-randomised representative)."
 	cov := map[string]any{
 		"evaluations":         a.Runs,
+		"platform_386":        map[string]any{"state": state386, "runs": a.Variants[simrun386.Name], "what": "pool-world histories executed by a GOARCH=386 build of the library and the harness (32-bit int/uint, portable code paths); same oracles"},
 		"distinct_nontrivial": len(a.NonTrivial),
 		"rule":                rule,
 		"bounds_depth":        fmt.Sprintf("%d (the stated bounds on history length / callers / operations are those of depth 1, the quick tier; the thorough tier runs at depth 2: twice the history length, up to 8 callers x 8 operations)", e.Depth),
